@@ -96,6 +96,14 @@ def _exc_fail(o: Oracle, sub: str, kind: str, exc: BaseException, detail: str = 
     o.fails.append(Fail(sub, kind, spsdk_frame(exc), ("%s: %s | %s" % (type(exc).__name__, str(exc)[:300], detail))[:1500]))
 
 
+def _r(v) -> str:
+    """repr that survives the astronomically large integers a wrong shift can produce."""
+    try:
+        return repr(v)[:600]
+    except ValueError:
+        return "<value with an integer of more than 4300 digits>"
+
+
 # ------------------------------------------------------------------ expected configuration (documented schema: sch_sb21.yaml)
 def _mem(d: dict, st: dict, key: str) -> None:
     if st.get("mem") is not None:
@@ -171,7 +179,7 @@ def _values_ok(got, want: bytes, words_allowed: bool) -> bool:
             return True
         if words_allowed:
             words = [int(s, 16) for s in got.split(",")]
-            return b"".join(w.to_bytes(4, "little") for w in words) == want
+            return b"".join(w.to_bytes(4, "little") for w in words) in (want, want + bytes(-len(want) % 4))
     except ValueError:
         pass
     return False
@@ -181,21 +189,21 @@ def compare_cmd(got, want: dict) -> list:
     """[(class, kind, detail)] class: 'num' (an integer operand differs) or 'struct'."""
     (op, wd), = want.items()
     if not isinstance(got, dict) or list(got.keys()) != [op]:
-        return [("struct", "stmt:%s:statement" % op, "got %r want %s" % (got, op))]
+        return [("struct", "stmt:%s:statement" % op, "got %s want %s" % (_r(got), op))]
     gd = got[op]
     if not isinstance(gd, dict) or set(gd.keys()) != set(wd.keys()):
-        return [("struct", "stmt:%s:keys" % op, "got %r want keys %s" % (gd, sorted(wd)))]
+        return [("struct", "stmt:%s:keys" % op, "got %s want keys %s" % (_r(gd), sorted(wd)))]
     out = []
     for k, w in wd.items():
         g = gd[k]
         if isinstance(w, bytes):
             if not _values_ok(g, w, words_allowed=(op in ("load", "encrypt") and gd.get("load_opt") not in ("fuse", "ifr", 4))):
-                out.append(("struct", "stmt:%s:%s" % (op, k), "got %r want blob %s" % (g, w.hex())))
+                out.append(("struct", "stmt:%s:%s" % (op, k), "got %s want blob %s" % (_r(g), w.hex())))
         elif isinstance(w, int) and not isinstance(g, str):
             if g != w:
-                out.append(("num", "stmt:%s:%s" % (op, k), "got %r want %r" % (g, w)))
+                out.append(("num", "stmt:%s:%s" % (op, k), "got %s want %s" % (_r(g), _r(w))))
         elif g != w or type(g) is not type(w):
-            out.append(("struct", "stmt:%s:%s" % (op, k), "got %r want %r" % (g, w)))
+            out.append(("struct", "stmt:%s:%s" % (op, k), "got %s want %s" % (_r(g), _r(w))))
     return out
 
 
@@ -205,59 +213,59 @@ def compare_config(parsed: dict, ref: BD.Program):
     ok_stmt: set = set()
     ok_sid: set = set()
     if not isinstance(parsed, dict):
-        return [("struct", "config:type", "got %r" % (parsed,))], ok_stmt, ok_sid
+        return [("struct", "config:type", "got %s" % (_r(parsed)))], ok_stmt, ok_sid
     # options
     gopt = parsed.get("options")
     if not isinstance(gopt, dict) or set(gopt) != set(ref.options):
-        mism.append(("struct", "options:keys", "got %r want %r" % (gopt, ref.options)))
+        mism.append(("struct", "options:keys", "got %s want %s" % (_r(gopt), _r(ref.options))))
     else:
         for k, w in ref.options.items():
             g = gopt[k]
             if isinstance(w, str) or isinstance(g, str):
                 if g != w:
-                    mism.append(("struct", "options:string", "%s: got %r want %r" % (k, g, w)))
+                    mism.append(("struct", "options:string", "%s: got %s want %s" % (k, _r(g), _r(w))))
             elif g != w:
-                mism.append(("num", "options:value", "%s: got %r want %r" % (k, g, w)))
+                mism.append(("num", "options:value", "%s: got %s want %s" % (k, _r(g), _r(w))))
     # sources
     if parsed.get("sources", {}) != ref.sources:
-        mism.append(("struct", "sources", "got %r want %r" % (parsed.get("sources"), ref.sources)))
+        mism.append(("struct", "sources", "got %s want %s" % (_r(parsed.get("sources")), _r(ref.sources))))
     # key blobs
     gkb = parsed.get("keyblobs", [])
     if not isinstance(gkb, list) or len(gkb) != len(ref.keyblobs):
-        mism.append(("struct", "keyblobs:count", "got %r want %d" % (gkb, len(ref.keyblobs))))
+        mism.append(("struct", "keyblobs:count", "got %s want %d" % (_r(gkb), len(ref.keyblobs))))
     else:
         for g, w in zip(gkb, ref.keyblobs):
             content = g.get("keyblob_content") if isinstance(g, dict) else None
             if not isinstance(g, dict) or set(g) != {"keyblob_id", "keyblob_content"} or not isinstance(content, list) or len(content) != 1 \
                     or not isinstance(content[0], dict) or set(content[0]) != set(w["opts"]):
-                mism.append(("struct", "keyblobs:shape", "got %r want %r" % (g, w)))
+                mism.append(("struct", "keyblobs:shape", "got %s want %s" % (_r(g), _r(w))))
                 continue
             if g["keyblob_id"] != w["id"]:
-                mism.append(("num", "keyblobs:id", "got %r want %r" % (g["keyblob_id"], w["id"])))
+                mism.append(("num", "keyblobs:id", "got %s want %s" % (_r(g["keyblob_id"]), _r(w["id"]))))
             for k, wv in w["opts"].items():
                 gv = content[0][k]
                 if isinstance(wv, str) or isinstance(gv, str):
                     if gv != wv:
-                        mism.append(("struct", "keyblobs:string", "%s: got %r want %r" % (k, gv, wv)))
+                        mism.append(("struct", "keyblobs:string", "%s: got %s want %s" % (k, _r(gv), _r(wv))))
                 elif gv != wv:
-                    mism.append(("num", "keyblobs:value", "%s: got %r want %r" % (k, gv, wv)))
+                    mism.append(("num", "keyblobs:value", "%s: got %s want %s" % (k, _r(gv), _r(wv))))
     # sections
     gsec = parsed.get("sections")
     if not isinstance(gsec, list) or len(gsec) != len(ref.sections):
-        mism.append(("struct", "sections:count", "got %r want %d" % (gsec, len(ref.sections))))
+        mism.append(("struct", "sections:count", "got %s want %d" % (_r(gsec), len(ref.sections))))
         return mism, ok_stmt, ok_sid
     for si, (g, w) in enumerate(zip(gsec, ref.sections)):
         if not isinstance(g, dict) or not isinstance(g.get("commands"), list):
-            mism.append(("struct", "sections:shape", "got %r" % (g,)))
+            mism.append(("struct", "sections:shape", "got %s" % (_r(g))))
             continue
         if g.get("section_id") != w["id"] or isinstance(g.get("section_id"), str):
-            mism.append(("num", "sections:id", "section %d: got %r want %r" % (si, g.get("section_id"), w["id"])))
+            mism.append(("num", "sections:id", "section %d: got %s want %s" % (si, _r(g.get("section_id")), _r(w["id"]))))
         else:
             ok_sid.add(si)
         if g.get("options") not in ({}, []):
-            mism.append(("struct", "sections:options", "got %r" % (g.get("options"),)))
+            mism.append(("struct", "sections:options", "got %s" % (_r(g.get("options")))))
         if len(g["commands"]) != len(w["commands"]):
-            mism.append(("struct", "sections:statement_count", "section %d: got %d statements want %d: %r" % (si, len(g["commands"]), len(w["commands"]), g["commands"])))
+            mism.append(("struct", "sections:statement_count", "section %d: got %d statements want %d: %s" % (si, len(g["commands"]), len(w["commands"]), _r(g["commands"]))))
             continue
         for ci, (gc, wst) in enumerate(zip(g["commands"], w["commands"])):
             m = compare_cmd(gc, expected_cmd(wst))
@@ -303,16 +311,31 @@ def diagnose(ref: BD.Program, text: str) -> list:
                 continue  # keep layout effects out of the diagnosis
             status, val = spsdk_value(src)
             if status != "ok" or isinstance(val, str) or val != node.value:
-                name = {"num": "literal", "chr": "char_literal", "bool": "bool_literal", "id": "identifier", "neg": "unary-", "pos": "unary+"}.get(node.op, node.op)
+                name = _OPNAME.get(node.op, node.op)
+                if node.op in ("neg", "pos"):
+                    ks = text[node.kids[0].start : node.kids[0].end]
+                    st2, val2 = spsdk_value("%s(%s)" % ("-" if node.op == "neg" else "+", ks))
+                    if st2 == "ok" and not isinstance(val2, str) and val2 == node.value:
+                        name = "intsize_precedence" if ks[-2:] in (".w", ".h", ".b") else "precedence:" + name
+                if len(node.kids) == 2:
+                    # right with both operands parenthesised? then the grouping (precedence) is at fault, not the operator
+                    l, r = node.kids
+                    ls, rs = text[l.start : l.end], text[r.start : r.end]
+                    st2, val2 = spsdk_value("(%s) %s (%s)" % (ls, node.op, rs))
+                    if st2 == "ok" and not isinstance(val2, str) and val2 == node.value:
+                        name = "intsize_precedence" if (rs[-2:] in (".w", ".h", ".b") or ls[-2:] in (".w", ".h", ".b")) else "precedence:" + node.op
                 if name not in faulty:
                     faulty.append(name)
                 seen.add(node.op)
     return faulty
 
 
+_OPNAME = {"num": "literal", "chr": "char_literal", "bool": "bool_literal", "id": "identifier", "neg": "unary-", "pos": "unary+",
+           ".w": "intsize", ".h": "intsize", ".b": "intsize"}
+
+
 def _has_faulty(node: BD.Node, faulty: list) -> bool:
-    names = {"num": "literal", "chr": "char_literal", "bool": "bool_literal", "id": "identifier", "neg": "unary-", "pos": "unary+"}
-    return any(names.get(n.op, n.op) in faulty for n in node.walk())
+    return any(_OPNAME.get(n.op, n.op) in faulty for n in node.walk())
 
 
 # ------------------------------------------------------------------ (b) command objects
@@ -331,7 +354,10 @@ def _cmd_check(o: Oracle, tag: str, st: dict, cmd, case_files: dict, ref: BD.Pro
             return
         want = bytes(case_files[st["path"]]) if st["src"] == "file" else st["data"]
         eq("address", cmd.address, st["address"])
-        eq("data", bytes(cmd.data), want)
+        if _unaligned_blob(st) and bytes(cmd.data) == want + bytes(-len(want) % 4):
+            o.label("blob_zero_padded_to_word")  # the configuration can only express whole 32-bit words
+        else:
+            eq("data", bytes(cmd.data), want)
         eq("mem_id", cmd.mem_id, mem_id)
         eq("flags", cmd.header.flags, BD.mem_flags(mem_id))
     elif op == "fill":
@@ -437,6 +463,12 @@ def _cmd_check(o: Oracle, tag: str, st: dict, cmd, case_files: dict, ref: BD.Pro
         raise AssertionError(op)
 
 
+def _unaligned_blob(st: dict) -> bool:
+    """A blob whose length is not a multiple of 4 cannot be expressed by the documented configuration (`values` are 32-bit
+    words): exact bytes, zero padding to a whole word or a refusal are all accepted for it."""
+    return st["op"] == "load" and st["src"] == "blob" and len(st["data"]) % 4 != 0
+
+
 def _stmt_tag(st: dict) -> str:
     op = st["op"]
     if op in ("load", "prog"):
@@ -482,7 +514,10 @@ def _check_commands(o: Oracle, env: dict, cfg: dict, ref: BD.Program, ok_stmt: s
                 img1 = _load_from_config(env, one, root)
             except Exception as exc:  # noqa: BLE001
                 blamed = True
-                _exc_fail(o, sub, "%s:exc:%s" % (_stmt_tag(st), type(exc).__name__), exc, "statement %r" % (cfg["sections"][si]["commands"][ci],))
+                if _unaligned_blob(st):
+                    o.label("refused:blob_unaligned")
+                    continue
+                _exc_fail(o, sub, "%s:exc:%s" % (_stmt_tag(st), type(exc).__name__), exc, "statement %s" % _r(cfg["sections"][si]["commands"][ci]))
                 continue
             cmds = list(img1.boot_sections[0]._commands)
             if o.eq(sub, "command_count", len(cmds), 1):
@@ -584,7 +619,8 @@ def make_run_valid(work: str):
         comments: list = []
         toks = BD.tokenize(text, comments)
         ref = BD.interpret(text, extern)
-        if not _ref_equal(ref, BD.interpret(alt, extern)):
+        ref_alt = BD.interpret(alt, extern)
+        if not _ref_equal(ref, ref_alt):
             raise AssertionError("the two layouts differ for the reference interpreter")
         if case.get("intent") is not None:
             _check_intent(ref, case["intent"], files)
@@ -617,20 +653,27 @@ def make_run_valid(work: str):
         if s1 == "exc":
             if weak:
                 o.label("refused:intsize_lexer")
+            elif s2 == "ok" and parsed_alt is not None:
+                # the canonical layout of the same tokens is accepted: the layout is what is refused
+                _exc_fail(o, "parse", "rejects_valid:layout%s:exc:%s" % (suspects, type(parsed).__name__), parsed, text)
             else:
-                where = "layout" if s2 == "ok" and parsed_alt is not None else "program"
-                _exc_fail(o, "parse", "rejects_valid:%s%s:exc:%s" % (where, suspects, type(parsed).__name__), parsed, text)
+                faulty = diagnose(ref_alt, alt)
+                for opname in faulty:
+                    o.fail("parse", "value:" + opname, "operator evaluated wrongly, which makes the program fail with %s: %s" % (type(parsed).__name__, str(parsed)[:300]))
+                if not faulty:
+                    _exc_fail(o, "parse", "rejects_valid:program%s:exc:%s" % (suspects, type(parsed).__name__), parsed, text)
             parsed = None
         elif parsed is None:
             if not weak:
                 o.fail("parse", "rejects_valid:returned_none" + suspects, text)
         ok_stmt: set = set()
         ok_sid: set = set()
+        mism: list = []
         if parsed is not None:
             pristine = copy.deepcopy(parsed)
             mism, ok_stmt, ok_sid = compare_config(parsed, ref)
             if mism:
-                faulty = diagnose(ref, text) if any(c == "num" for c, _, _ in mism) else []
+                faulty = diagnose(ref_alt, alt) if any(c == "num" for c, _, _ in mism) else []
                 first_num = next((dt for c, _, dt in mism if c == "num"), "")
                 for opname in faulty:
                     o.fail("parse", "value:" + opname, "operator evaluated wrongly; e.g. " + first_num)
@@ -645,12 +688,20 @@ def make_run_valid(work: str):
             if s2 == "exc":
                 _exc_fail(o, "layout", "canonical_layout_rejected:exc:%s" % type(parsed_alt).__name__, parsed_alt, alt)
             elif parsed_alt != pristine:
-                o.fail("layout", "differs" + suspects, "generated layout: %r\ncanonical layout: %r" % (pristine, parsed_alt))
+                o.fail("layout", "differs" + suspects, "generated layout: %s\ncanonical layout: %s" % (_r(pristine), _r(parsed_alt)))
         # ---- (b) command objects
         cfg = parsed
         if cfg is None and s2 == "ok" and parsed_alt is not None and not weak:
             cfg = parsed_alt
-            _, ok_stmt, ok_sid = compare_config(cfg, ref)
+            mism, ok_stmt, ok_sid = compare_config(cfg, ref)
+        if cfg is not None:
+            # (b) judges the step configuration -> commands: whatever (a) already found wrong in the options / key blobs is
+            # replaced by the expected value, statements that were parsed wrongly are left out (ok_stmt)
+            cfg = copy.deepcopy(cfg)
+            if any(k.startswith("options:") for _, k, _ in mism):
+                cfg["options"] = dict(ref.options)
+            if any(k.startswith("keyblobs:") for _, k, _ in mism):
+                cfg["keyblobs"] = [{"keyblob_id": k["id"], "keyblob_content": [dict(k["opts"])]} for k in ref.keyblobs]
         if cfg is not None and isinstance(cfg.get("sections"), list) and len(cfg["sections"]) == len(ref.sections) \
                 and all(isinstance(s, dict) and isinstance(s.get("commands"), list) and len(s["commands"]) == len(w["commands"])
                         for s, w in zip(cfg["sections"], ref.sections)):
@@ -690,7 +741,7 @@ def make_run_unsupported(work: str):
         if parsed is None:
             return  # refused (parse_sb21_config turns None into an error)
         if stage == "parse":
-            o.fail("unsupported", "accepted:" + what, "returned %r for\n%s" % (parsed, text))
+            o.fail("unsupported", "accepted:" + what, "returned %s for\n%s" % (_r(parsed), text))
             return
         env = _env(work)
         root = _materialise(env, files)
